@@ -232,6 +232,11 @@ func hDumpEntry(e *Entry) string {
 	if ns := e.Namespace(); ns != nil {
 		s += " ns=" + ns.Name
 	}
+	if im, err := e.InstantiatingModule(); err == nil {
+		s += " im=" + im
+	} else {
+		s += " im-unknown"
+	}
 	if e.ReadOnly() {
 		s += " ro"
 	}
